@@ -33,7 +33,8 @@ META = dict(
           'tree parent). Then (1) closure marks in the whole text (occurrences inside sentence renderings subtracted) == number of closed '
           'branches; (2) for every branch (leaf.branch_id) the token sequence of list(branch) embeds IN ORDER into the lines of its '
           'root-to-leaf path (earliest-match embedding = existence of an embedding), and these lines carry exactly one closure mark if the '
-          'branch is closed, none if open; (3) where a structure line splits into exactly len(structure.nodes) segments at "; " / closure '
+          'branch is closed, none if open - a branch that fails on its mapped path but fits another root-to-leaf path of the text is NOT reported '
+          '(sibling order is not part of the statement; counted text_branches_on_other_path, inconclusive); (3) where a structure line splits into exactly len(structure.nodes) segments at "; " / closure '
           'marks, the k-th segment must contain the tokens of the k-th node (otherwise (3) is not applied). If the layout is not recognised '
           'only the weaker form is decided: (1) plus every branch embeds into the whole text; such a case is otherwise inconclusive. '
           'non-trivial = distinct (logic, tableau source, writer configuration) whose tableau has >= 2 nodes.'),
@@ -61,7 +62,7 @@ META = dict(
     unit_timeout=dict(quick=200, thorough=1500),
 )
 
-NARGS = dict(quick=26, thorough=None)          # arguments per logic (None: all generated)
+NARGS = dict(quick=32, thorough=None)          # arguments per logic (None: all generated)
 NRANDOM = dict(quick=30, thorough=420)
 RULE_ROUNDS = dict(quick=1, thorough=2)
 CAP = dict(quick=120, thorough=300)
@@ -368,6 +369,37 @@ def embed(text, toks):
     return None
 
 
+def diagnose_embed(text, toks, seg):
+    """Only for the DIAGNOSIS of a failed embedding (never decides): walk the nodes, look for a node's markers
+    inside the window that ends at the next node terminator / line end after its first token, and name the first
+    token that is not there. Returns None or (node index, token kind)."""
+    cur = 0
+    for i, (_, steps, _) in enumerate(toks):
+        if not steps:
+            continue
+        first = steps[0][0]
+        e = first.find(text, cur)
+        if e is None:
+            return i, first.kind
+        m = seg.search(text, e)
+        wend = m.end() if m else len(text)
+        nl = text.find('\n', e)
+        if 0 <= nl < wend:
+            wend = nl
+        window = text[:wend]
+        c2 = e
+        for group in steps[1:]:
+            ends = []
+            for alt in group:
+                x = alt.find(window, c2)
+                if x is None:
+                    return i, alt.kind
+                ends.append(x)
+            c2 = max(ends)
+        cur = c2
+    return None
+
+
 def parse_layout(text):
     "[(indent, body)] of the structure lines, or None if a line fits neither pattern."
     out = []
@@ -478,6 +510,7 @@ def text_oracle(tab, writer, text, out=None):
     adj = []
     for (indent, body), (s, _) in zip(lines, order):
         adj.append(nmarks(body) - sum(nmarks(toks(n)[2]) for n in s.nodes if toks(n)[2]))
+    seg = re.compile('(?:; |' + '|'.join(re.escape(m) for m in cmarks) + ')')
     # (2) branch by branch
     seen = set()
     leafpaths = {}
@@ -503,6 +536,8 @@ def text_oracle(tab, writer, text, out=None):
             if any(k2 != k and m2 == want and embed(t2, btoks) is None for k2, (t2, m2) in leafpaths.items()):
                 relocated += 1
                 continue
+        if bad is not None:
+            bad = diagnose_embed(ptext, btoks, seg) or bad
         if bad is not None and ('tok', bad[1]) not in seen:
             seen.add(('tok', bad[1]))
             node = b[bad[0]]
@@ -526,7 +561,6 @@ def text_oracle(tab, writer, text, out=None):
             out.count('text_branches_on_other_path', relocated)
         return problems, False
     # (3) node by node inside a structure line
-    seg = re.compile('(?:; |' + '|'.join(re.escape(m) for m in cmarks) + ')')
     for (indent, body), (s, _) in zip(lines, order):
         nodes = list(s.nodes)
         if not nodes:
@@ -558,16 +592,17 @@ def text_oracle(tab, writer, text, out=None):
 
 # ------------------------------------------------------------------ determinism
 
-def diff_class(a, b):
+def diff_class(a, b, fmt=None):
     "Mechanism-level description of the first difference of two renderings."
     n = min(len(a), len(b))
     i = next((k for k in range(n) if a[k] != b[k]), n)
     where = 'text'
-    m = re.search(r'([\w:-]+)="[^"<>]*$', a[:i])
-    if m:
-        where = 'attr:' + m.group(1)
-    elif re.search(r'<[^<>]*$', a[:i]):
-        where = 'tag'
+    if fmt == 'html':
+        m = re.search(r'([\w:-]+)="[^"<>]*$', a[:i])
+        if m:
+            where = 'attr:' + m.group(1)
+        elif re.search(r'<[^<>]*$', a[:i]):
+            where = 'tag'
     ca, cb = a[i:i + 1], b[i:i + 1]
     if (ca.isdigit() or not ca) and (cb.isdigit() or not cb) and (ca or cb):
         j = i
@@ -661,7 +696,7 @@ def render_check(case, tab, cfg, out, writers_cache=None, size=0):
     out.count('determinism_checks', 2)
     for which, other in (('same-writer', texts[1]), ('fresh-writer', texts[2])):
         if other != texts[0]:
-            d, i = diff_class(texts[0], other)
+            d, i = diff_class(texts[0], other, cfg['format'])
             viol('determinism', dict(clause='nondeterministic', between=which, **d),
                  f'two renderings of the same tableau differ ({which}) at offset {i}: {texts[0][max(0, i - 40):i + 30]!r} vs '
                  f'{other[max(0, i - 40):i + 30]!r}')
